@@ -32,6 +32,41 @@ theorem C21_add_sound : SoundBin Conc.add (fun a b => pure (a.add b)) noGuard :=
 example : (SI.new 8 3 250 4).WF ∧ (SI.new 8 2 1 7).WF ∧ (SI.new 8 3 250 4).mem 0 ∧ (SI.new 8 2 1 7).mem 5 ∧
     ((SI.new 8 3 250 4).add (SI.new 8 2 1 7)).mem 5 := by decide
 
+/-- closure of `add` -/
+theorem C21_add_closed (a b : SI) (ha : a.WF) (hb : b.WF) (hbits : a.bits = b.bits) :
+    (a.add b).WF ∧ (a.add b).bits = a.bits := add_WF a b ha hb hbits
+
+/-! ## sub, neg -/
+
+/-- `sub` is sound for all well-formed operands (also when the subtrahend's upper bound is not a member: since the
+repair the result is anchored at its last member) -/
+theorem C21_sub_sound : SoundBin Conc.sub (fun a b => pure (a.sub b)) noGuard := by
+  intro a b r x y ha hb hbits _ hx hy hr
+  have : r = a.sub b := by cases hr; rfl
+  subst this
+  have hyl : y < 2 ^ a.bits := by rw [hbits]; exact hy.2.1
+  have := sub_sound a b x y hbits ha hb hx hy
+  unfold Conc.sub
+  rw [Nat.mod_eq_of_lt hyl]
+  have e : x + (2 ^ a.bits - y) = x + 2 ^ a.bits - y := by omega
+  rw [e]; exact this
+
+theorem C21_sub_closed (a b : SI) (ha : a.WF) (hb : b.WF) (hbits : a.bits = b.bits) :
+    (a.sub b).WF ∧ (a.sub b).bits = a.bits := sub_WF a b ha hb hbits
+
+/-- `neg()` and (since the repair) unary minus are sound and closed -/
+theorem C21_neg_sound (a : SI) (x : Nat) (ha : a.WF) (hx : a.mem x) :
+    (a.neg.WF ∧ a.neg.bits = a.bits) ∧ a.neg.mem (Conc.neg a.bits x) := by
+  refine ⟨neg_WF a ha, ?_⟩
+  unfold Conc.neg
+  rw [Nat.mod_eq_of_lt hx.2.1]
+  exact neg_sound a x ha hx
+
+/-- non-vacuity: an unaligned, wrapping subtrahend -/
+example : (SI.new 4 3 1 9).WF ∧ ({ bits := 4, stride := 5, lb := 14, ub := 6 } : SI).WF ∧ (SI.new 4 3 1 9).mem 7 ∧
+    ({ bits := 4, stride := 5, lb := 14, ub := 6 } : SI).mem 3 ∧
+    ((SI.new 4 3 1 9).sub { bits := 4, stride := 5, lb := 14, ub := 6 }).mem 4 := by decide
+
 /-! ## sdiv — false on the code (floor instead of truncation), finding C21-sdiv-floor -/
 
 /-- full statement: `sdiv` is sound w.r.t. SMT-LIB `bvsdiv` for every iteration order of its result set -/
